@@ -1,4 +1,6 @@
 ENGINES = [
+    {"name": "K", "path": "vlib/ksim.py", "serves_properties": ["C03", "C11"],
+     "kind_free_text": "real Arbiter.run() with gunicorn.arbiter.{os,time,select,signal,sock,systemd,random} replaced by a simulated kernel driven by a generated schedule vector"},
     {"name": "F", "path": "checks/c17.py", "serves_properties": ["C17"],
      "kind_free_text": "real Pidfile on a scratch directory, gunicorn.pidfile.os/tempfile replaced by proxies (per-instance getpid, model-driven liveness, crash injection)"},
     {"name": "G", "path": "checks/c16.py", "serves_properties": ["C16"],
@@ -92,4 +94,11 @@ CHECKS = [
              "class (scratch directory, proxied os/tempfile with fake pids) and are compared with a dict model after every step; every system call of "
              "create and rename is crashed before/after/half-way in 5 starting states and the path must be absent, complete-old or complete-new.",
      "note": "fake pids with model-driven kill(pid,0); intra-operation races between two masters not injected; crash = process vanishing at a syscall boundary"},
+    {"id": "C03", "engine": "K",
+     "technique": "schedule-driven property testing (Hypothesis event histories + schedule vectors) of the real Arbiter.run() on a simulated kernel, against a reference pool model",
+     "text": "gunicorn.arbiter's os/time/select/signal/sock/random are replaced by a simulated kernel (process table, zombies, virtual clock); generated "
+             "histories of worker deaths (any status/signal, also inside fork()), TTIN/TTOU bursts and HUPs, with a schedule vector deciding at which fake "
+             "system call each death (and its SIGCHLD handler) lands; at quiescence live == tracked == model target, no zombies, surplus TERMs oldest-first, "
+             "boot errors (3/4) end run() with that status.",
+     "note": "signal handlers run at fake-syscall boundaries only; worker processes are simulated (the real worker classes are not run here)"},
 ]
